@@ -268,6 +268,32 @@ HFAC_MISC = T("GoHFacConsec", [
   ("tie_hfac_neverCloses", "CM.GoTie.GoHFacNever.go_neverClosesFactory_eq", "default closer = neverCloses{}")]) + T("GoHFacNow", [
   ("tie_hfac_cfg_now", "CM.GoTie.GoHFacNow.go_now_eq", "`ConfigureOpener.now` = one reading of the configured clock, wall clock when nil")])
 
+# ---- expvar publishing (units Go*Var): the content is computed when the published function is EVALUATED, not when Var() is called
+VARS_C20 = T("GoFbStatsVar", [
+    ("tie_fbstats_Var", "CM.GoTie.GoFbStatsVar.go_Var_eq", "`FallbackStats.Var()` computes nothing: a function value over the receiver"),
+    ("tie_fbstats_Var_eval", "CM.GoTie.GoFbStatsVar.go_Var_eval_eq", "… evaluated, it reads the three totals of that moment"),
+    ("tie_fbstats_Var_follows", "CM.GoTie.GoFbStatsVar.second_reading_counts_the_event", "… a handle read twice around a fallback event shows the event")]) + T("GoRunStatsVar", [
+    ("tie_runstats_Var", "CM.GoTie.GoRunStatsVar.go_Var_eq", "`RunStats.Var()` computes nothing"),
+    ("tie_runstats_Var_eval", "CM.GoTie.GoRunStatsVar.go_Var_eval_eq", "… evaluated: seven counters by reference, the latencies' summary at one WALL-clock reading"),
+    ("tie_runstats_Var_counters", "CM.GoTie.GoRunStatsVar.counters_by_reference", "… the counters are published as pointers")]) + T("GoSloVar", [
+    ("tie_slo_Var", "CM.GoTie.GoSloVar.go_Var_eq", "`Tracker.Var()` computes nothing"),
+    ("tie_slo_Var_eval", "CM.GoTie.GoSloVar.go_Var_eval_eq", "… evaluated: current config, pass = MeetsSLOCount, fail = FailsSLOCount")]) + T("GoFanRunVar", [
+    ("tie_fanrun_Var_eval", "CM.GoTie.GoFanRunVar.go_Var_eval_eq", "run collection `Var` evaluated: every varable collector once, in slice order, non-nil results")]) + T("GoFanFbVar", [
+    ("tie_fanfb_Var_eval", "CM.GoTie.GoFanFbVar.go_Var_eval_eq", "the same for the fallback collection")]) + T("GoCircuitVar", [
+    ("tie_circuit_Var_eval", "CM.GoTie.GoCircuitVar.go_Var_eval_eq", "`Circuit.Var` evaluated: nine keys, is_open = IsOpen() at that moment")])
+VARS_C17 = T("GoManagerVar", [
+    ("tie_manager_Var", "CM.GoTie.GoManagerVar.go_Var_eq", "`Manager.Var()` computes nothing: no lock, registry not read"),
+    ("tie_manager_Var_eval", "CM.GoTie.GoManagerVar.go_Var_eval_eq", "… evaluated: RLock, every registered circuit's Var evaluated, non-nil results by name, RUnlock"),
+    ("tie_manager_Var_creates", "CM.GoTie.GoManagerVar.var_sees_later_creates", "… a handle taken before a CreateCircuit lists the new circuit")])
+VARS_C15 = T("GoRPVar", [
+    ("tie_rp_Var", "CM.GoTie.GoRPVar.go_Var_eq", "`RollingPercentile.Var()` computes nothing"),
+    ("tie_rp_Var_eval", "CM.GoTie.GoRPVar.go_Var_eval_eq", "… evaluated: Snapshot() at one wall-clock reading, the labelled summary of THAT snapshot")])
+VARS_C11 = T("GoManagerVar", [
+    ("tie_manager_Var_locked", "CM.GoTie.GoManagerVar.evaluations_under_the_read_lock", "every circuit evaluation lies between RLock and RUnlock")]) + T("GoCircuitVar", [
+    ("tie_circuit_Var_nil", "CM.GoTie.GoCircuitVar.go_Var_eval_nil", "nil circuit: nil, nothing read"),
+    ("tie_circuit_Var", "CM.GoTie.GoCircuitVar.go_Var_eq", "the call computes nothing, nil receiver or not")]) + T("GoExpvarToVal", [
+    ("tie_expvarToVal", "CM.GoTie.GoExpvarToVal.go_expvarToVal_eq", "one evaluation iff the value has Value() interface{}")])
+
 # ---- K6: interference ties (CircuitProofs/GoTie/I_*): the bodies translated over primitives in which an arbitrary move of the
 # other goroutines precedes every atomic / lock operation take exactly the steps of the small-step model's thread
 K6_CORE = [(("tie_k6_thread_view", "CM.GoTie.ICore.thread_view", "every schedule of any system, seen from one thread, is a run of that thread alone against SOME oracle: what is proved for every oracle covers every schedule"), "I_Core")]
@@ -341,14 +367,14 @@ PROPS = {
             [C("IsOpen"), C("openCircuit"), C("close"), C("attemptToOpen"), C("OpenCircuit"), C("CloseCircuit"), C("checkSuccess"), C("checkErrFailure"), C("checkErrTimeout")] + FAN_CIRC + SETCFG + ATOM_BOOL + K6_TRANS + K6_CORE + CTOR + HFAC_CLOSER[2:3] + HFAC_OPENER[5:6]),
     "C10": ("panics: the deferred calls of `run` and `fallback` run on every exit", [RUN, FALLBACK, EXECUTE] + CIRC_MISC + RUN_EVENTS[:1] + RUN_C04[3:4] + RUN_LIVE),
     "C11": ("reconfiguration: what each SetConfigThreadSafe writes (circuit, hystrix opener, hystrix closer, SLO tracker) — every setting, nothing else",
-            SETCFG + LIVECFG + OPENER_CFG + CLOSER_CFG + SLO_CFG),
+            SETCFG + LIVECFG + OPENER_CFG + CLOSER_CFG + SLO_CFG + VARS_C11),
     "C12": ("every timestamp is a reading of the configured clock: all translated functions of circuit.go",
             [C("now"), C("OpenCircuit"), C("CloseCircuit"), RUN, FALLBACK] + ALL + CTOR[:4]),
     "C13": ("the rolling counter: rolling_bucket.go's `Advance` and rolling_counter.go's methods are the model `RC`", ROLL + FSNEW_RC + ROLL_STORE),
     "C14": ("the counter under interference: every atomic step of rolling_counter.go / rolling_bucket.go is the small-step model's", K6_RC + K6_CORE + ATOM_I64),
-    "C15": ("rolling_percentile.go: the ring of circular buffers is the model `RP` / `DSlot`, the snapshot's numbers are the model `SD`", RPT + SD + FSNEW_RP),
+    "C15": ("rolling_percentile.go: the ring of circular buffers is the model `RP` / `DSlot`, the snapshot's numbers are the model `SD`", RPT + SD + FSNEW_RP + VARS_C15),
     "C16": ("the gate: timedcheck.go's method bodies are the model `TC`", TC + K6_TC + K6_CORE + ATOM_BOOL + ATOM_I64 + TC_HOOK),
-    "C17": ("the registry: manager.go's CreateCircuit / GetCircuit / MustCreateCircuit are the model `Mgr`", MGR + STATFACTORY + STATSFIND + MGR_ALL + CTOR + HFAC_LAYERS + K6_MGR + K6_CORE),
+    "C17": ("the registry: manager.go's CreateCircuit / GetCircuit / MustCreateCircuit are the model `Mgr`", MGR + STATFACTORY + STATSFIND + MGR_ALL + CTOR + HFAC_LAYERS + K6_MGR + K6_CORE + VARS_C17),
     "C20": ("the collectors' method bodies, translated from today's rolling.go / responsetime.go, are the model's functions",
             T("GoRunStats", evs("GoRunStats", "Cons.RunStats.onRun") + [
                 ("tie_GoRunStats_ErrorsAt", "CM.GoTie.GoRunStats.go_ErrorsAt_eq", "errors = failures + timeouts, both read at the same instant"),
@@ -364,7 +390,7 @@ PROPS = {
                 ("tie_GoSlo_failure", "CM.GoTie.GoSlo.go_failure_eq", "a fail verdict moves the counter and tells every collector"),
                 ("tie_GoSlo_healthy", "CM.GoTie.GoSlo.go_healthy_eq", "a pass verdict likewise"),
                 ("tie_GoSlo_onRun_slo", "CM.GoTie.GoSlo.onRun_slo", "the tracker part of `SloW.onRun` is `Slo.onRun`"),
-                ("tie_GoSlo_tell_told", "CM.GoTie.GoSlo.tell_told", "each verdict reaches every attached collector exactly once")]) + SLO_CFG + STATS + STATSFB + STATSFIND + SLO_FACTORY),
+                ("tie_GoSlo_tell_told", "CM.GoTie.GoSlo.tell_told", "each verdict reaches every attached collector exactly once")]) + SLO_CFG + STATS + STATSFB + STATSFIND + SLO_FACTORY + VARS_C20),
 }
 
 # which regenerated units each property's tie depends on (-> lib/props.py "generated")
@@ -384,6 +410,9 @@ UNITS = {"F_": "gocircuit", "All": "gocircuit", "T_GoHOpener": "gohopener", "T_G
          "T_GoHFacLayers": ["gohfaclayers"], "T_GoHFacCloser": ["gohfaccloser"], "T_GoHFacOpener": ["gohfacopener", "gohfacopenerset"], "T_GoHFacOpenerSet": ["gohfacopenerset"],
          "T_GoHFacNow": ["gohfacnow"], "T_GoHFacConsec": ["gohfacconsec"], "T_GoHFacNever": ["gohfacnever"],
          "T_GoHFacChain": ["gohfaclayers", "gohfaccloser", "gohfacopener", "gohfacopenerset"],
+         "T_GoFbStatsVar": ["gofbstatsvar", "gofbstats"], "T_GoRunStatsVar": ["gorunstatsvar", "gorunstats"], "T_GoSloVar": "goslovar",
+         "T_GoRPVar": ["gorpvar", "gorpsnap", "gosdvar", "gosorteddurations"], "T_GoManagerVar": "gomanagervar", "T_GoExpvarToVal": "goexpvartoval",
+         "T_GoFanRunVar": "gofanrunvar", "T_GoFanFbVar": ["gofanfbvar", "gofanrunvar"], "T_GoCircuitVar": "gocircuitvar",
          "I_Core": [], "Props.RunAll": [], "I_Fb": "gofbi", "I_Mgr": ["gomgri", "gomgriall", "gomanager"], "I_RC": ["gorciclear", "gorciadv", "gorciops"], "I_TC": "gotci", "I_Call": "gocalli",
          "T_GoLiveLogic": ["goneveropens", "gonevercloses", "gohopenercfg", "gohclosercfg", "goslocfg"]}
 
